@@ -126,7 +126,7 @@ CHECKS = {
              'the projection of the whole sheet, its serialisation, namespace mapping, encoding and the text of the '
              'target must equal their value before the call. insertRule / deleteRule with a symbolic index; objects '
              'created read-only: every mutator must leave them unchanged.',
-        note='Bounded: one fixed pre-state sheet, 200 templates, holes of length 1 (quick) / <= 2 (thorough). Trusted: z3, '
+        note='Bounded: one fixed pre-state sheet (thorough: also after each of four groups of accepted edits), 200 templates, holes of length 1 (quick) / <= 2 (thorough). Trusted: z3, '
              'the projection in harness/projection.py.',
         design='3 C11'),
     'C12': dict(
@@ -136,7 +136,9 @@ CHECKS = {
              'profile registry, saved tokens) is proved equal before and after the call on every path, '
              'returning or raising, and a probe battery run afterwards equals its fresh-process result; '
              'byte input with symbolic bytes (decode failures decided by the codec model), fetchers failing '
-             'at a symbolic call index, missing files, csscombine; parser reuse. An AST tripwire checks '
+             'at a symbolic call index, missing files, csscombine with symbolic arguments and caller preferences; '
+             'parser reuse; a parser used after the caller changed the error mode (symbolic modes); DOM objects '
+             'built / set from text with a symbolic hole outside any parser call (27 templates). An AST tripwire checks '
              'that the state vector covers every module-level mutable object of the current tree.',
         note='Trusted: z3; codec model; the probe battery stands for any later call; hidden state outside '
              'the listed vector would go unnoticed unless the tripwire reports a new module-level object.',
